@@ -26,7 +26,7 @@ QFLAGS = "-Q ../base FlacBase -Q . FlacUpdIo"
 
 E2E_THEOREMS = ["C10_real_codec_hypotheses", "C10_readers_agree", "C10_real_codec_inplace", "C10_real_codec_rebuilt",
                 "C10_real_codec_history", "C10_real_codec_same_decoding", "C10_real_codec_example_inplace",
-                "C10_real_codec_example_rebuilt", "C10_real_codec_example_hypotheses"]
+                "C10_real_codec_example_rebuilt", "C10_real_codec_example_hypotheses", "C10_written_then_edited_lossless"]
 
 
 def proof_stage(chk, theorems, requires_extra=(), composed=False):
@@ -41,10 +41,15 @@ def proof_stage(chk, theorems, requires_extra=(), composed=False):
         cq = lambda d: os.path.join(VERIF, "coq", d)
         gen.append("python3 %s/tools/gen_stream.py %s %s/GenStream.v" % (VERIF, vlib.REPO, cq("codec")))
         gen.append("python3 %s/tools/gen_metadata.py %s %s/GenMeta.v" % (VERIF, vlib.REPO, cq("metadata")))
+        gen.append("python3 %s/tools/gen_writers.py %s %s/GenWriters.v" % (VERIF, vlib.REPO, cq("writers")))
+        gen.append("python3 %s/tools/gen_readers.py %s %s/anchors.json" % (VERIF, vlib.REPO, cq("readers")))
         return vlib.proof_stage(
-            chk, coq_dirs=[BASE, cq("codec"), cq("metadata"), AREA, cq("e2eupd")], build_dir=cq("e2eupd"),
-            qflags="-Q ../base FlacBase -Q ../codec FlacCodec -Q ../metadata FlacMeta -Q ../updateio FlacUpdIo -Q . FlacE2EUpd",
-            requires=requires + ["FlacUpdIo.Update_cond", "FlacE2EUpd.Props_E2EUpd"], theorems=theorems + E2E_THEOREMS,
+            chk, coq_dirs=[BASE, cq("codec"), cq("writers"), cq("readers"), cq("e2e"), cq("metadata"), cq("e2emeta"), AREA, cq("e2eupd")],
+            build_dir=cq("e2eupd"),
+            qflags="-Q ../base FlacBase -Q ../codec FlacCodec -Q ../metadata FlacMeta -Q ../updateio FlacUpdIo -Q ../writers FlacWriters "
+                   "-Q ../readers FlacReaders -Q ../e2e FlacE2E -Q ../e2emeta FlacE2EMeta -Q . FlacE2EUpd",
+            requires=requires + ["FlacUpdIo.Update_cond", "FlacE2EUpd.Props_E2EUpd", "FlacE2EUpd.Props_WrittenEdited"],
+            theorems=theorems + E2E_THEOREMS,
             obligation_files=[(AREA, files), (cq("e2eupd"), vlib.coq_files(cq("e2eupd")))], gen_steps=gen)
     return vlib.proof_stage(
         chk, coq_dirs=[BASE, AREA], build_dir=AREA, qflags=QFLAGS, requires=requires, theorems=theorems,
